@@ -221,6 +221,41 @@ are apart), separated by a newline and a tab -/
 example : sanitizeStr demoHost "copied /abs/existing/q.h5ad\n\tto '/tmp/x',".toList
     = .ok "copied q.h5ad\n\tto x,".toList := by decide
 
+/-- whatever whitespace characters separate them -- blank, tab, newline, carriage return,
+non-breaking space, ... (`isWs` = Python's `str.isspace`) -- three words are three words -/
+theorem splitWs_three (u w v : Str) (c1 c2 : Char) (hc1 : isWs c1 = true) (hc2 : isWs c2 = true)
+    (hu : u ≠ [] ∧ WsFree u) (hw : w ≠ [] ∧ WsFree w) (hv : v ≠ [] ∧ WsFree v) :
+    splitWs (u ++ c1 :: (w ++ c2 :: v)) = [u, w, v] := by
+  unfold splitWs
+  rw [splitWsGo_append_word u [] _ hu.2]
+  simp only [splitWsGo, hc1, if_true, List.nil_append]
+  rw [splitWsGo_append_word w [] _ hw.2]
+  simp only [splitWsGo, hc2, if_true, List.nil_append]
+  rw [splitWsGo_nil_word v hv.2]
+  simp [hu.1, hw.1, hv.1]
+
+/-- `words_clean` does not care which whitespace separates the words: a path that stands
+between two NEWLINES (the package's own "The file\n{path}\ncontains ..." messages), tabs,
+carriage returns or any other `str.isspace` character is a word of its own and is treated
+exactly as between blanks -- the words of the sanitised message are the images of the three
+words, and if the middle word is exposed it is replaced by something not starting with '/'. -/
+theorem words_clean_any_whitespace (h : Host) (u w v out : Str) (c1 c2 : Char)
+    (hc1 : isWs c1 = true) (hc2 : isWs c2 = true)
+    (hu : u ≠ [] ∧ WsFree u) (hw : w ≠ [] ∧ WsFree w) (hv : v ≠ [] ∧ WsFree v)
+    (hres : ∀ p, WsFree (h.resolve p)) (hind : Independent h [u, w, v])
+    (hout : sanitizeStr h (u ++ c1 :: (w ++ c2 :: v)) = .ok out) :
+    splitWs out = ([u, w, v].map (wordImage h)).filter nonEmpty ∧
+    (isExposed h.ex (wordToPath w) = true → (wordImage h w).head? ≠ some '/') := by
+  have hs := splitWs_three u w v c1 c2 hc1 hc2 hu hw hv
+  have hspec := words_spec h _ out hres (by rw [hs]; exact hind) hout
+  rw [hs] at hspec
+  refine ⟨hspec.1, fun hex => ?_⟩
+  exact replacement_not_absolute h w _ (hspec.2 w (by simp) hex)
+
+example : sanitizeStr demoHost "must be in file. The file\n/abs/existing/stats_x.h5\ncontains keys".toList
+    = .ok "must be in file. The file\nstats_x.h5\ncontains keys".toList ∧
+    sanitizeStr demoHost "file\t/abs/existing/q.h5\r\nis not a file".toList
+    = .ok "file\tq.h5\r\nis not a file".toList := by decide
 /-- "nested keys (`/a` and `/a/b/c`) cannot leave an absolute remainder": when an exposed
 word `k` is a *prefix* of another word (the case `Independent` excludes), replacing `k`
 rewrites the beginning of that word to `k`'s replacement, so what is left of it no longer
